@@ -32,10 +32,10 @@ var current(var type) { __CPROVER_assert(type == GC, "current(GC)"); return &GCO
 void set(var self, var key, var val) { __CPROVER_assert(self == (var)&GCOBJ.v, "registration goes to the thread's collector"); cv_sets++; cv_set_key = key; cv_set_root = ((struct Int*)val)->val; }
 void rem(var self, var key) { __CPROVER_assert(self == (var)&GCOBJ.v, "deletion goes to the thread's collector"); cv_rems++; cv_rem_key = key; }
 
-static int expect_throw; static var expect_exc; static struct Header old_hdr; static struct Header* watch;
+static int expect_throw; static var expect_exc, expect_exc2; static struct Header old_hdr; static struct Header* watch;
 void cv_on_throw(var obj) {
   ASSERT(expect_throw || obj == OutOfMemoryError, "no exception on an in-contract allocation call");
-  ASSERT(!expect_throw || obj == expect_exc, "[C12] the documented exception kind is raised");
+  ASSERT(!expect_throw || obj == expect_exc || (expect_exc2 && obj == expect_exc2), "[C12] the documented exception kind is raised");
   ASSERT(obj != OutOfMemoryError || cv_callocs >= 1, "OutOfMemoryError only after an allocation attempt");
   if (watch) {
     ASSERT(cv_frees == 0, "[C19] a refused deallocation frees nothing");
@@ -84,7 +84,7 @@ void h_stack(void) {
   struct TSTRUCT* p = alloc_stack(TSTRUCT);
   ASSERT(HDR(p)->type == TYPE_UNDER_TEST && HDR(p)->alloc == (var)AllocStack && HDR(p)->magic == (var)CELLO_MAGIC_NUM, "[C19] $ / alloc_stack objects carry (type, Stack, magic)");
   ASSERT(type_of(p) == TYPE_UNDER_TEST, "[C19] type_of of a stack object");
-  watch = HDR(p); old_hdr = *HDR(p); expect_throw = 1; expect_exc = ResourceError;
+  watch = HDR(p); old_hdr = *HDR(p); expect_throw = 1; expect_exc = ResourceError; expect_exc2 = ValueError;  /* a destructor may refuse first (String_Del) */
   COVER(1, "stack object built");
   del_raw(p);
   ASSERT(0, "[C19] del_raw of a stack object does not return normally");
@@ -99,7 +99,7 @@ void h_static(void) {
   ASSERT(0, "[C19] dealloc of a static object does not return normally");
 }
 void h_null(void) {
-  expect_throw = 1; expect_exc = nondet_bool() ? ValueError : ResourceError;   /* type_of(NULL) raises ValueError before dealloc's own NULL test */
+  expect_throw = 1; expect_exc = ValueError;   /* type_of(NULL) raises ValueError before dealloc's own NULL test */
   COVER(1, "dealloc NULL");
   dealloc(NULL);
   ASSERT(0, "[C12] dealloc(NULL) does not return normally");
